@@ -36,18 +36,26 @@ class FakeSock:
     def __init__(self, data, cuts):
         self.segs = segments(data, cuts)
         self.delivered = 0
-        self.pending = b""
+        self._buf = b""            # (not "pending": that is a method of TLS sockets)
         self.i = 0
 
     def recv(self, n):
-        if not self.pending:
+        if not self._buf:
             if self.i >= len(self.segs):
                 return b""
-            self.pending = self.segs[self.i]
+            self._buf = self.segs[self.i]
             self.i += 1
-        out, self.pending = self.pending[:n], self.pending[n:]
+        out, self._buf = self._buf[:n], self._buf[n:]
         self.delivered += len(out)
         return out
+
+
+class TlsSock(FakeSock):
+    """like ssl.SSLSocket: a segment is a TLS record; pending() tells how many decrypted bytes of the current record
+    have not been handed out yet"""
+
+    def pending(self):
+        return len(self._buf)
 
 
 def segments(data, cuts):
@@ -83,7 +91,7 @@ def run(data, cuts, cfg=None, mode="read", source="iter", peer=("127.0.0.1", 500
         program=None):
     """-> dict(out=[{start, body(bytes), hdrs, method, uri, version, trailers}], fin, exc, held)"""
     cfg = cfg or make_cfg()
-    src = Source(data, cuts) if source == "iter" else FakeSock(data, cuts)
+    src = Source(data, cuts) if source == "iter" else TlsSock(data, cuts) if source == "tls" else FakeSock(data, cuts)
     parser = RequestParser(cfg, src, peer)
     starts = []
     un = parser.unreader
